@@ -1236,10 +1236,16 @@ def nb_dot(a: Union[np.ndarray, pd.DataFrame, pl.DataFrame], b: ArrayType1D):
     if isinstance(a, np.ndarray):
         arr_list = a.T
     else:
-        arr_list = NumbaList([np.asarray(a[col]) for col in a.columns])
+        arr_list = [np.asarray(a[col]) for col in a.columns]
 
-    kinds = [a.dtype.kind for a in arr_list]
+    b = np.asarray(b)
+    kinds = [a.dtype.kind for a in arr_list] + [b.dtype.kind]
     return_type = np.float64 if "f" in kinds else np.int64
+    if not isinstance(a, np.ndarray):
+        if len(set(col.dtype for col in arr_list)) > 1:
+            # numba needs the columns of a frame in one dtype
+            arr_list = [np.asarray(col, dtype=return_type) for col in arr_list]
+        arr_list = NumbaList(arr_list)
 
     if not len(a):
         out = np.zeros(0, dtype=return_type)
